@@ -177,3 +177,91 @@ def loads(ctx):
     a, b, s1, s2 = z3.Reals("mdot_a mdot_b scale_a scale_b")
     ctx.ob("lemma/additive", "lemma", [], a * s1 * 1 + b * s2 * 1 == (a * s1 + b * s2) * 1 * 1)
     ctx.ob("lemma/source-is-negative-sink", "lemma", [], a * s1 * (-1) == (-a) * s1 * 1)
+
+
+# ---------------------------------------------------------------------------------------------
+# internal nodes of a multi-section pipe: interpolated between the pipe's two junctions
+
+PC = "pandapipes.component_models.pipe_component"
+CTB = "pandapipes.component_models.component_toolbox"
+
+
+@unit("C09", "pipe_sections/internal_nodes", functions=[PC + ":Pipe.create_pit_node_entries"], engine="E3")
+def pipe_internal_nodes(ctx):
+    """call-site contract: the temperature, pressure and HEIGHT of the internal nodes are vinterp(value at the from
+    junction, value at the to junction, number of internal nodes) with the junctions found through the index lookup --
+    so that the geodetic terms of the sections telescope to the height difference of the pipe (lemma telescoping)"""
+    from pvc.harness import venv_run
+    ctx.assume("A1", "A4", "A6", "A7")
+    cls = S.get_module(PC).classes["Pipe"]
+    NN, NP, NLJ = z3.Int("NN"), z3.Int("NP"), z3.Int("NLJ")
+    fj, tj, fi, ti = z3.Int("f_j"), z3.Int("t_j"), z3.Int("f_i"), z3.Int("t_i")
+    calls = []
+
+    def c_vinterp(ev, a, k):
+        calls.append(list(a))
+        return K.sym_arr("vinterp%d" % len(calls), ti - fi, "f")
+    pamb = []
+
+    def c_pamb(ev, a, k):
+        pamb.append(a[0])
+        return K.sym_arr("pamb", ti - fi, "f")
+    cols = {"from_junction": "i", "to_junction": "i", "in_service": "b", "sections": "i"}
+
+    def mk():
+        del calls[:]
+        del pamb[:]
+        net = K.NetObj({"pipe": K.sym_table("pipe", NP, cols),
+                        "_options": {"transient": False, "simulation_time_step": 0},
+                        "_lookups": {"node_from_to": {"junction": (fj, tj), "pipe_nodes": (fi, ti)},
+                                     "node_table": {"n2t": {0: "junction", 1: "pipe_nodes"}, "t2n": {"junction": 0, "pipe_nodes": 1}},
+                                     "node_index": {"junction": K.sym_arr("junction_lookup", NLJ, "i")}}})
+        return [cls, net, K.sym_pit("node_pit", NN, NCN)], {}
+    intn = K.sym_arr("int_nodes", NP, "i")
+    paths = T.run_paths(ctx, PC + ":Pipe.create_pit_node_entries", mk, contracts={
+        CTB + ":vinterp": c_vinterp, CTB + ":p_correction_height_air": c_pamb,
+        PC + ":Pipe.get_internal_node_number": lambda ev, a, k: intn})
+    ok = len(paths) == 1 and paths[0].exc is None and len(calls) == 3
+    ctx.decided("single-path-three-interpolations", "cover", ok, witness=str(([str(p.exc) for p in paths], len(calls))))
+    if not ok:
+        return
+    p = paths[0]
+    tbl = K.sym_table("pipe", NP, cols)
+    L = K.sym_arr("junction_lookup", NLJ, "i")
+    np0 = K.sym_pit("node_pit", NN, NCN)
+    npit = p.args[0][2]
+    i = z3.Int("i!pipe")
+    N_TINIT, N_PINIT, N_HEIGHT = K.const(ND, "TINIT"), K.const(ND, "PINIT"), K.const(ND, "HEIGHT")
+    fpos = lambda r: fj + V.I(L.f(V.I(tbl.columns["from_junction"].f(r))))
+    tpos = lambda r: fj + V.I(L.f(V.I(tbl.columns["to_junction"].f(r))))
+    a = [NP >= 0, fj >= 0, fj <= tj, tj <= NN, fi >= 0, fi <= ti, ti <= NN, i >= 0, i < NP] + list(p.facts) + [p.cond()]
+    # the junction block precedes the internal nodes (create_lookups order): stores into rows f_i.. do not touch it
+    a += [tj <= fi]
+    # referential integrity (C16) + lookup contract (C06): the references resolve to rows of the junction block
+    for c in ("from_junction", "to_junction"):
+        ref = V.I(tbl.columns[c].f(i))
+        a += [ref >= 0, ref < NLJ, V.I(L.f(ref)) >= 0, V.I(L.f(ref)) < tj - fj]
+    order = {0: ("TINIT", N_TINIT), 1: ("PINIT", N_PINIT), 2: ("HEIGHT", N_HEIGHT)}
+    for kx, (nm, col) in order.items():
+        lo, hi, cnt = calls[kx]
+        good = isinstance(lo, (Arr, Comp)) and isinstance(hi, (Arr, Comp)) and not isinstance(lo, Comp) and not isinstance(hi, Comp)
+        ctx.decided("%s/arguments-are-arrays" % nm, "cover", good, witness=repr((lo, hi)))
+        if not good:
+            continue
+        ctx.ob("%s/interpolated-from-the-from-junction" % nm, "ensures", a, K.eq_val(lo.f(i), np0.f(fpos(i), col)))
+        ctx.ob("%s/interpolated-to-the-to-junction" % nm, "ensures", a, K.eq_val(hi.f(i), np0.f(tpos(i), col)))
+        ctx.decided("%s/one-value-per-internal-node" % nm, "ensures", cnt is intn, witness=repr(cnt))
+        q = z3.Int("q!node")
+        ctx.ob("%s/written-to-the-internal-node-rows" % nm, "ensures", a + [q >= 0, q < ti - fi],
+               K.eq_val(npit.f(fi + q, col), K.sym_arr("vinterp%d" % (kx + 1), ti - fi, "f").f(q)))
+    ctx.decided("ambient-pressure-from-the-interpolated-height", "ensures", len(pamb) == 1, witness=str(len(pamb)))
+    # vinterp itself (np.repeat / cumsum arithmetic): bounded stand-in
+    res = venv_run("bounded.py", {"what": "vinterp"})
+    ctx.bounded("vinterp-is-linear-interpolation", res["ok"],
+                scope="1..3 elements with 0..3 internal nodes each, end values from {0, 1.5, -2}: element r of pipe i = lo + (hi-lo)(r+1)/(n_i+1)",
+                cases=res["cases"], witness=res.get("witness"),
+                replay={"handler": "bounded", "input": {"what": "vinterp"}} if not res["ok"] else None)
+    ctx.ob("lemma/interpolated-heights-telescope", "lemma", [],
+           z3.ForAll([z3.Real("h0"), z3.Real("h1")], (z3.Real("h0") + (z3.Real("h1") - z3.Real("h0")) / 3 - z3.Real("h0")) +
+                     (z3.Real("h0") + 2 * (z3.Real("h1") - z3.Real("h0")) / 3 - (z3.Real("h0") + (z3.Real("h1") - z3.Real("h0")) / 3)) +
+                     (z3.Real("h1") - (z3.Real("h0") + 2 * (z3.Real("h1") - z3.Real("h0")) / 3)) == z3.Real("h1") - z3.Real("h0")))
